@@ -6,6 +6,8 @@ package quic_test
 // frame reader) removes Initial protection and compares every observable with the
 // InitialPacketSpec. Configurations = built-in fingerprints and the zero spec with
 // one-knob (quick) / two-knob (thorough) deviations; three dials per configuration.
+// Knob families: this file (headers, numbering, tokens, per-datagram builders and plans),
+// c10_planrf_test.go (plan x per-datagram builder), c10_flight_test.go (flight builders).
 
 import (
 	"bytes"
@@ -550,9 +552,11 @@ func c10Attribute(t *testing.T, cache map[string]string, cfg c10Config, o *c10Ou
 			}
 		}
 	}
-	if len(red.Knobs) == 1 {
-		for _, k := range c10FlightSiblings(red.Knobs[0]) {
-			if c := (c10Config{Base: red.Base, Knobs: []int{k}}); same(c) {
+	for i := range red.Knobs {
+		for _, k := range c10FlightSiblings(red.Knobs[i]) {
+			ks := append([]int{}, red.Knobs...)
+			ks[i] = k
+			if c := (c10Config{Base: red.Base, Knobs: ks}); same(c) {
 				red = c
 				break
 			}
@@ -606,7 +610,7 @@ func TestVerifC10(t *testing.T) {
 				}
 			}
 		}
-		return cfgs, fmt.Sprintf("7 built-in fingerprints + zero spec x every one-knob deviation (%d knobs: CID lengths 0/1/7/8/20, initial packet numbers 0..2^64-1, PN length lists, tokens, frame builders, per-datagram plans, the plan x random-builder lattice of c10_planrf_test.go (CryptoLength x PacketSize x builder Length around the plan's CRYPTO frame x CRYPTO frame count x builder kind), UDP minimum sizes, ClientHello sizes; every frame builder / packet plan x every ClientHello size; in thorough every pair except contradictory ones: two knobs of one layout family, a 300-byte token with an exact packet plan) x 3 dials with different seeds; silent peer, first flight + PTO retransmissions within 1.5 s", len(c10Knobs))
+		return cfgs, fmt.Sprintf("7 built-in fingerprints + zero spec x every one-knob deviation (%d knobs: CID lengths 0/1/7/8/20, initial packet numbers 0..2^64-1, PN length lists, tokens, frame builders, per-datagram plans, the plan x random-builder lattice of c10_planrf_test.go (CryptoLength x PacketSize x builder Length around the plan's CRYPTO frame x CRYPTO frame count x builder kind), the flight-builder lattice of c10_flight_test.go (QUICFlightFrames / QUICRandomFlightFrames / custom QUICFlightFrameBuilder x 3..4 datagrams x position of the big datagram x InitialPackets none / one repeating entry / two / one per datagram x size of the big datagram across the 1200 / 1280 / packet-buffer / BuildFlight-budget bounds), UDP minimum sizes, ClientHello sizes; every frame builder / packet plan x every ClientHello size; in thorough every pair except contradictory ones: two knobs of one layout family, a 300-byte token with an exact packet plan) x 3 dials with different seeds; silent peer, first flight + PTO retransmissions within 1.5 s", len(c10Knobs))
 	}
 	part := explore.Part{
 		Name: "flight-vs-spec",
